@@ -96,6 +96,14 @@ class Interp:
         self.classes = {}              # qual -> ClassVal
         self.module_cache = {}         # (module, name) -> value
         self.symconst = symbolic_constants or {}   # "constants.avogadro_number" -> Symbol
+        # a value supplied for an embedded table or constant stands for a binding of the package: if the package does not
+        # define that name any more (the table was moved or re-laid out), the supplied value would stand for nothing and the
+        # package's own data would be read instead - an analysis that has lost its anchor, never a finding
+        for dotted_ in self.symconst:
+            mod_, _, nm_ = dotted_.partition(".")
+            if mod_ in src.modules and "." not in nm_ and src.resolve(mod_, nm_) is None:
+                raise AnalysisError(f"the package no longer defines {dotted_} (an embedded table or constant the analysis supplies a probe "
+                                    f"for): the probe has nothing to stand for")
         self.call_log = None           # when a list: (callable, args, kwargs) of every package function called
         self.stubs = stubs or {}       # qual -> python callable(interp, args, kwargs)
         self.arrays = set(arrays)      # symbols that stand for numpy arrays
